@@ -33,7 +33,7 @@ ASSUMPTIONS = [
     "read-from-file is required in the documented clear cases, forbidden when manipulation is requested, and "
     "either way for P/PA sources",
 ]
-N_RANDOM = {"quick": 150, "thorough": 5000}
+N_RANDOM = {"quick": 150, "thorough": 30000}
 MIN_EVENTS = {"graphics commands parsed": {"quick": 5000, "thorough": 100000}, "pixels compared": {"quick": 1000000, "thorough": 20000000}}
 PERSONAS = ["kitty-0.32", "konsole", "wezterm", "iterm2"]
 OPAQUE = {"1", "L", "RGB", "HSV", "CMYK"}
